@@ -321,7 +321,8 @@ def offsets(repo):
 # Each row of ANCHORS ties ONE integer expression or boolean condition of the Rust source to ONE generated Coq definition.
 #   name    Coq name of the generated definition
 #   file    Rust file (relative to the repo)
-#   fn      enclosing fn (its brace-balanced body is searched; `impl` = optional regex of the enclosing impl block header)
+#   fn      enclosing fn (its brace-balanced body is searched; `impl` = optional regex of the enclosing impl block header);
+#           None = the whole file (type declarations)
 #   pat     regex locating the statement / struct field / condition inside the fn body; group `e` captures the expression text
 #   count   how many times `pat` must match in the fn body (default 1: a second copy appearing is also a broken tie)
 #   occ     which of those matches this row is about (default 0)
@@ -615,7 +616,7 @@ def gallina(e, names, ty, text):
         if t == 'lit':
             if x[1] < 0 and ty == 'N':
                 raise TranslateError('negative constant in an N expression %r' % text)
-            return str(x[1]) if x[1] >= 0 else '- %d' % -x[1]
+            return str(x[1])
         if t == 'var':
             if x[1] not in names:
                 raise TranslateError('unknown name %r in expression %r' % (x[1], text))
@@ -724,21 +725,30 @@ def rust_src(repo, rel):
     return _SRC_CACHE[key]
 
 
+def cmt(text):
+    """source text made safe inside a Coq comment"""
+    return re.sub(r'\s+', ' ', text.strip()).replace('*)', '* )').replace('(*', '( *').replace('"', "''")
+
+
 def anchored(repo, row):
     """one ANCHORS row -> list of Coq lines (comment + definition)"""
     src = rust_src(repo, row['file'])
     if row.get('impl'):
         src = impl_body(src, row['impl'])
-    body = fn_body(src, row['fn'])
-    whole = fn_text(src, row['fn'])
-    where = '%s fn %s' % (row['file'], row['fn'])
+    if row.get('fn'):
+        body = fn_body(src, row['fn'])
+        whole = fn_text(src, row['fn'])
+        where = '%s fn %s' % (row['file'], row['fn'])
+    else:
+        body = whole = src
+        where = row['file']
     if row.get('kind') == 'require':
         found = []
         for rq in row['require']:
             m = re.search(rq, whole)
             if not m:
                 raise TranslateError('%s: %s: required context not found (pattern %s)' % (row['name'], where, rq))
-            found.append(re.sub(r'\s+', ' ', m.group(0).strip()))
+            found.append(cmt(m.group(0)))
         return ['(* %s: %s: the source contains %s *)' % (row['name'], where, '; '.join('`%s`' % f for f in found))]
     ms = list(re.finditer(row['pat'], body))
     count = row.get('count', 1)
@@ -750,7 +760,7 @@ def anchored(repo, row):
     if row.get('kind') == 'width':
         if text not in INT_TYPES or text in ('usize', 'isize'):
             raise TranslateError('%s: %s: %r is not a sized integer type' % (row['name'], where, text))
-        return ['(* %s: `%s` *)' % (where, re.sub(r'\s+', ' ', m.group(0).strip())),
+        return ['(* %s: `%s` *)' % (where, cmt(m.group(0))),
                 'Definition %s : nat := %d%%nat.' % (row['name'], INT_TYPES[text] // 8)]
     try:
         safe = None
@@ -771,7 +781,7 @@ def anchored(repo, row):
     for rq in row.get('require', []):
         if not re.search(rq, whole):
             raise TranslateError('%s: %s: required context not found (pattern %s)' % (row['name'], where, rq))
-    out = ['(* %s: `%s`%s *)' % (where, text.replace('*)', '* )').replace('(*', '( *'), (' -- ' + note) if note else ''),
+    out = ['(* %s: `%s`%s *)' % (where, cmt(text), (' -- ' + note) if note else ''),
            'Definition %s%s : %s := (%s)%%%s.' % (row['name'], binder, 'bool' if kind == 'bool' else ty, body_, ty)]
     if safe is not None:
         out.append('Definition %s_SAFE%s : Prop := %s.' % (row['name'], binder, safe))
@@ -800,7 +810,14 @@ _OL = [('offset', 'offset'), ('length', 'length')]
 _LR = [('left_length', 'left_length'), ('right_length', 'right_length')]
 _RL = [('root_offset', 'root_offset'), ('length', 'length')]
 
+NUM = 'src/number.rs'
+_V = [('v', 'v')]
+_CE_EQ = r'(?<!else\s)if\s+(?P<e>\*v\s*==[^{]*?)\s*\{'
+_CE_GE = r'if\s+(?P<e>\*v\s*>=[^{]*?)\s*\{'
+_CE_LE = r'if\s+(?P<e>\*v\s*<=[^{]*?)\s*\{'
+_CE_W = r'\(\*v\s+as\s+(?P<e>\w+)\)\s*\.to_be_bytes\(\)'
 FN = 'src/functions.rs'
+
 SEL = 'src/jsonpath/selector.rs'
 _IL = [('index', 'index'), ('len', 'len')]
 _XL = [('idx', 'idx'), ('len', 'len')]
@@ -945,6 +962,27 @@ ANCHORS = [
     nrow('SBI_OFF', SEL, 'select_by_indices', letmut('offset'), _RL),
     nrow('BSA_RESERVE', SEL, 'build_scalar_array', r'data\.resize\(\s*(?P<e>[^,]*),\s*0\s*\)\s*;', [('jentry_offset', 'jentry_offset'), ('len', 'len')]),
     nrow('BSA_JSTEP', SEL, 'build_scalar_array', incr('jentry_offset'), []),
+    # ---- G3: width selection of Number::compact_encode (C01 C18) ----------------------------------------------------------------
+    dict(name='CE_INT_ZERO', file=NUM, fn='compact_encode', pat=_CE_EQ, count=2, occ=0, params=_V, ty='Z', mach='i64'),
+    dict(name='CE_INT_FITS1', file=NUM, fn='compact_encode', pat=_CE_GE, count=3, occ=0, params=_V, ty='Z', mach='i64'),
+    dict(name='CE_INT_FITS2', file=NUM, fn='compact_encode', pat=_CE_GE, count=3, occ=1, params=_V, ty='Z', mach='i64'),
+    dict(name='CE_INT_FITS3', file=NUM, fn='compact_encode', pat=_CE_GE, count=3, occ=2, params=_V, ty='Z', mach='i64'),
+    dict(name='CE_UINT_ZERO', file=NUM, fn='compact_encode', pat=_CE_EQ, count=2, occ=1, params=_V, ty='N', mach='u64'),
+    dict(name='CE_UINT_FITS1', file=NUM, fn='compact_encode', pat=_CE_LE, count=3, occ=0, params=_V, ty='N', mach='u64'),
+    dict(name='CE_UINT_FITS2', file=NUM, fn='compact_encode', pat=_CE_LE, count=3, occ=1, params=_V, ty='N', mach='u64'),
+    dict(name='CE_UINT_FITS3', file=NUM, fn='compact_encode', pat=_CE_LE, count=3, occ=2, params=_V, ty='N', mach='u64'),
+    # the widths written: `(*v as iN).to_be_bytes()` in the three narrow branches, the variant's own type in the last one
+    dict(name='CE_INT_W1', kind='width', file=NUM, fn='compact_encode', pat=_CE_W, count=6, occ=0),
+    dict(name='CE_INT_W2', kind='width', file=NUM, fn='compact_encode', pat=_CE_W, count=6, occ=1),
+    dict(name='CE_INT_W3', kind='width', file=NUM, fn='compact_encode', pat=_CE_W, count=6, occ=2),
+    dict(name='CE_INT_W4', kind='width', file=NUM, fn=None, pat=r'enum\s+Number\s*\{\s*Int64\((?P<e>\w+)\)\s*,'),
+    dict(name='CE_UINT_W1', kind='width', file=NUM, fn='compact_encode', pat=_CE_W, count=6, occ=3),
+    dict(name='CE_UINT_W2', kind='width', file=NUM, fn='compact_encode', pat=_CE_W, count=6, occ=4),
+    dict(name='CE_UINT_W3', kind='width', file=NUM, fn='compact_encode', pat=_CE_W, count=6, occ=5),
+    dict(name='CE_UINT_W4', kind='width', file=NUM, fn=None, pat=r'enum\s+Number\s*\{[^}]*?\bUInt64\((?P<e>\w+)\)\s*,'),
+    dict(name='CE_WIDE_BRANCHES', kind='require', file=NUM, fn='compact_encode',      # the last branch writes the variant's own type
+         require=[r'\}\s*else\s*\{\s*writer\.write_all\(&v\.to_be_bytes\(\)\)\?;\s*Ok\(9\)\s*\}\s*\}\s*Self::UInt64',
+                  r'\}\s*else\s*\{\s*writer\.write_all\(&v\.to_be_bytes\(\)\)\?;\s*Ok\(9\)\s*\}\s*\}\s*Self::Float64']),
 ]
 
 
@@ -1006,7 +1044,7 @@ def generate(repo):
     for T in ('i8', 'i16', 'i32', 'i64', 'u8', 'u16', 'u32', 'u64', 'usize'):
         bits = INT_TYPES[T]
         lo, hi = (-(1 << (bits - 1)), (1 << (bits - 1)) - 1) if T[0] == 'i' else (0, (1 << bits) - 1)
-        L.append('Definition IN_%s (z : Z) : Prop := (%s <= z <= %d)%%Z.' % (T, lo if lo >= 0 else '- %d' % -lo, hi))
+        L.append('Definition IN_%s (z : Z) : Prop := (%s <= z <= %d)%%Z.' % (T, lo, hi))
     L.append('(* anchored expressions (table ANCHORS of the translator): integer expressions and conditions, as written in the source *)')
     L.extend(anch)
     L.append('')
@@ -1075,6 +1113,16 @@ MUTATIONS = [
     (SEL, 'select_by_name', 'root_offset + 4 + length * 8', 'root_offset + 8 + length * 8', 0),
     (SEL, 'select_by_indices', 'root_offset + 4 + length * 4', 'root_offset + 4 + length * 8', 0),
     (SEL, 'build_scalar_array', 'jentry_offset + 4 * len', 'jentry_offset + 8 * len', 0),
+    # G3
+    (NUM, 'compact_encode', '*v <= i8::MAX.into()', '*v < i8::MAX.into()', 0),
+    (NUM, 'compact_encode', '*v >= i16::MIN.into()', '*v >= i8::MIN.into()', 0),
+    (NUM, 'compact_encode', '*v <= i32::MAX.into()', '*v <= u32::MAX.into()', 0),
+    (NUM, 'compact_encode', '*v <= u8::MAX.into()', '*v <= i8::MAX.into()', 0),
+    (NUM, 'compact_encode', '*v <= u16::MAX.into()', '*v < u16::MAX.into()', 0),
+    (NUM, 'compact_encode', '(*v as i16)', '(*v as i32)', 0),
+    (NUM, 'compact_encode', '(*v as u32)', '(*v as u16)', 0),
+    (NUM, 'compact_encode', '*v == 0', '*v == 1', 1),
+    (NUM, None, 'Int64(i64),', 'Int64(i32),', 0),
 ]
 
 
